@@ -1,7 +1,6 @@
 import VelaVerif.Props.C12Serial
 import VelaVerif.Props.C17
-import VelaVerif.Model.RawOutput
-import VelaVerif.Spec.RawOutput
+import VelaVerif.Lemmas.RawOutput
 /-!
 # C17 / C12 / C02 — the raw output (`rawdata_writer.write_rawdata_output`, the `.npz`)
 
@@ -12,74 +11,7 @@ range ends below the total of the call that placed it), exactly as in `Props/C12
 namespace VelaVerif.Props.C12Raw
 open VelaVerif VelaVerif.Serialise VelaVerif.Reported VelaVerif.RawOutput
 
-/-! ## what a successful `writeRaw` wrote -/
-
-theorem writeRaw_ok (arch : Arch) (c w s f : OpTensor) (ins outs : List OpTensor) (z : Npz)
-    (h : writeRaw arch (c :: w :: s :: f :: ins) outs = .ok z) :
-    z.cmdData = c.values ∧ z.weightData = w.values ∧ z.scratchShape = s.shape ∧ z.scratchFastShape = f.shape ∧
-    getRegion arch w.memType = some z.weightRegion ∧ getRegion arch s.memType = some z.scratchRegion ∧
-    getRegion arch f.memType = some z.scratchFastRegion ∧ ioOf arch ins = .ok z.input ∧ ioOf arch outs = .ok z.output := by
-  unfold writeRaw writeRawG at h
-  simp only [Bool.false_eq_true, if_false] at h
-  split at h
-  · rename_i wr sr fr hwr hsr hfr
-    split at h
-    · cases h
-    · rename_i i hi
-      split at h
-      · cases h
-      · rename_i o ho
-        split at h
-        · cases h
-        · simp only [Except.ok.injEq] at h
-          subst h
-          exact ⟨rfl, rfl, rfl, rfl, hwr, hsr, hfr, hi, ho⟩
-  · cases h
-
-theorem regionsOf_map (arch : Arch) (ts : List OpTensor) (rs : List Nat) (h : regionsOf arch ts = some rs) :
-    ts.map (fun t => getRegion arch t.memType) = rs.map some := by
-  induction ts generalizing rs with
-  | nil => simp only [regionsOf, Option.some.injEq] at h; subst h; rfl
-  | cons t ts ih =>
-    simp only [regionsOf] at h
-    split at h
-    · rename_i r rs' hr hrs
-      simp only [Option.some.injEq] at h
-      subst h
-      simp only [List.map_cons, hr, ih rs' hrs]
-    · cases h
-
-/-- the four lists of a direction are the tensors' own shape / element size / region / address, in operand order -/
-theorem ioOf_lists (arch : Arch) (ts : List OpTensor) (i : Io) (h : ioOf arch ts = .ok i) :
-    i.shapes = ts.map (·.shape) ∧ i.elemSizes = ts.map (·.elemSize) ∧ i.offsets = ts.map (·.address) ∧
-    i.regions.map some = ts.map (fun t => getRegion arch t.memType) := by
-  unfold ioOf at h
-  split at h
-  · cases h
-  · rename_i rs hrs
-    simp only [Except.ok.injEq] at h
-    subst h
-    exact ⟨rfl, rfl, rfl, (regionsOf_map arch ts rs hrs).symm⟩
-
 /-! ## (a) the payload -/
-
-/-- the command-stream tensor every NPU subgraph gets: the driver payload of its register command stream -/
-theorem serialise_cmd (arch : Arch) (sg : Sg) (s q f : Option MemTensor) (r : Result) (hnpu : sg.isNpu = true)
-    (h : serialise arch sg s q f = .ok r) :
-    ∃ payload, Payload.createDriverPayload arch.acc sg.words = .ok payload ∧
-      r.cmd = some { mkMem arch.flashArea .permanentCPU payload.length true with values := some payload } := by
-  unfold serialise at h
-  simp only [hnpu, Bool.not_true, Bool.false_eq_true, if_false] at h
-  cases hp : Payload.createDriverPayload arch.acc sg.words with
-  | error e => rw [hp] at h; cases h
-  | ok payload =>
-    rw [hp] at h
-    refine ⟨payload, rfl, ?_⟩
-    simp only at h
-    repeat' split at h
-    all_goals first
-      | (cases h; rfl)
-      | cases h
 
 /-- **raw_payload_is_tflite_payload**.  For every NPU subgraph the serialiser accepts: its command-stream tensor `c` holds the
     driver payload of the subgraph's register command stream; `tflite_writer` stores exactly these bytes in the buffer of the
@@ -165,19 +97,6 @@ def sizesOf (z : Npz) : Spec.RawOutput.RawSizes :=
 /-- the entry the file holds for tensor `t` listed with region `r` -/
 def entry (r : Nat) (t : OpTensor) : Spec.RawOutput.RawIo := { region := r, offset := t.address, elemSize := t.elemSize, shape := t.shape }
 
-open VelaVerif.Spec.RawOutput in
-theorem sizeOf_one (Z : RawSizes) (n : Nat) (h1 : Z.scratchRegion = 1) (h2 : Z.scratchShape = [n]) : Z.sizeOf 1 = some (some n) := by
-  simp [RawSizes.sizeOf, h1, h2]
-
-open VelaVerif.Spec.RawOutput in
-theorem sizeOf_two (Z : RawSizes) (n : Nat) (h1 : Z.scratchRegion = 1) (h3 : Z.fastRegion = 2) (h4 : Z.fastShape = [n]) :
-    Z.sizeOf 2 = some (some n) := by
-  simp [RawSizes.sizeOf, h1, h3, h4]
-
-open VelaVerif.Spec.RawOutput in
-theorem sizeOf_zero (Z : RawSizes) (b : Bool) (h1 : Z.scratchRegion = 1) (h3 : Z.fastRegion = (if b then 2 else 1)) : Z.sizeOf 0 = none := by
-  cases b <;> simp [RawSizes.sizeOf, h1, h3]
-
 /-- **raw_io_offsets_inside_scratch**.  Setting of `raw_scratch_ge_extent`; `ins` / `outs` = the real inputs (operands 4…) and
     the results of the call operator.  Hypotheses: `hplaced` every listed tensor of an arena memory type has an address, given
     by a recorded allocation call whose type set contains its memory type, and `address + storage_size()` is below that call's
@@ -254,25 +173,65 @@ theorem raw_io_offsets_inside_scratch (arch : Arch) (calls : List AllocCall) (s 
       have := hQ call hcall hrec hty a (storage t) hle
       rw [hbytes']; omega
 
-/-! ## the Spec checker is sound -/
+/-! ## the proposed repair C12-30 -/
 
-open VelaVerif.Spec.RawOutput in
-theorem ioProblem_none (z : RawSizes) (what : String) (i : Nat) (t : RawIo) (h : ioProblem z what i t = none) : Inside z t := by
-  intro sz hsz
-  unfold ioProblem at h
-  rw [hsz] at h
-  cases sz with
-  | none => cases h
-  | some n =>
-    simp only at h
-    cases ho : t.offset with
-    | none => rw [ho] at h; cases h
-    | some a =>
-      rw [ho] at h
-      simp only at h
+/-- padding changes no byte count: every padded shape has the element count of the shape it came from, in list order -/
+theorem padShapes_prod (l : List (List Nat)) : (padShapes l).map prod = l.map prod := by
+  unfold padShapes
+  simp only [List.map_map]
+  apply List.map_congr_left
+  intro s _
+  exact foldl_mul_replicate_one _ s 1
+
+/-- **repair_keeps_accepted_files**: whenever the unchanged writer writes a file, the repaired writer writes the same file -/
+theorem repair_keeps_accepted_files (arch : Arch) (ins outs : List OpTensor) (z : Npz) (h : writeRaw arch ins outs = .ok z) :
+    writeRawG true arch ins outs = .ok z := by
+  unfold writeRaw writeRawG at h
+  unfold writeRawG
+  simp only [Bool.false_eq_true, if_false] at h
+  simp only [if_true]
+  split at h
+  · rename_i c w s f rest
+    split at h
+    · rename_i wr sr fr hwr hsr hfr
       split at h
       · cases h
-      · exact ⟨n, a, rfl, rfl, by omega⟩
+      · rename_i i hi
+        split at h
+        · cases h
+        · rename_i o ho
+          split at h
+          · cases h
+          · rename_i hr
+            have hr' : sameRank i.shapes = true ∧ sameRank o.shapes = true := by
+              cases h1 : sameRank i.shapes <;> cases h2 : sameRank o.shapes <;> simp [h1, h2] at hr ⊢
+            simp only [Except.ok.injEq] at h
+            subst h
+            rw [padShapes_sameRank _ hr'.1, padShapes_sameRank _ hr'.2]
+    · cases h
+  · cases h
+
+/-! ## the Spec checker decides the Spec -/
+
+open VelaVerif.Spec.RawOutput in
+/-- **raw_spec_sound**: a file the checker accepts satisfies the Spec clause for every listed input and output, and publishes one
+    size when both arena regions are one -/
+theorem raw_spec_sound (z : RawSizes) (ins outs : List RawIo) (h : ok z ins outs = true) :
+    (z.scratchRegion = z.fastRegion → z.scratchShape = z.fastShape) ∧ ∀ t ∈ ins ++ outs, Inside z t := by
+  unfold ok problems at h
+  simp only [List.isEmpty_iff, List.append_eq_nil_iff] at h
+  obtain ⟨⟨h1, h2⟩, h3⟩ := h
+  refine ⟨?_, ?_⟩
+  · intro heq
+    by_cases hs : z.scratchShape = z.fastShape
+    · exact hs
+    · simp [heq, hs] at h1
+  · intro t ht
+    rcases List.mem_append.mp ht with ht | ht
+    · obtain ⟨i, hi⟩ := filterMap_zipIdx_nil ins _ 0 h2 t ht
+      exact ioProblem_none z _ i t hi
+    · obtain ⟨i, hi⟩ := filterMap_zipIdx_nil outs _ 0 h3 t ht
+      exact ioProblem_none z _ i t hi
 
 /-! ## non-vacuity -/
 
@@ -318,6 +277,12 @@ example :
     Spec.RawOutput.ok ⟨1, [65536], 2, [4096]⟩ [{ inn with offset := none }] [out] = false := by decide
 /-- inputs of different rank: `np.savez` raises, no file is written -/
 example : writeRaw demoArch [demoCmd, demoW, ofMem demoS, ofMem demoQ, demoIn, { demoIn with shape := [1, 8] }] [demoOut] = .error .ragged := by
+  rfl
+
+/-- ... the repaired writer lists the rank-2 shape as `[1, 1, 1, 8]` -/
+example :
+    (writeRawG true demoArch [demoCmd, demoW, ofMem demoS, ofMem demoQ, demoIn, { demoIn with shape := [1, 8] }] [demoOut]).toOption.map
+      (·.input.shapes) = some [[1, 8, 8, 16], [1, 1, 1, 8]] := by
   rfl
 
 end VelaVerif.Props.C12Raw
